@@ -554,6 +554,85 @@ def r10(ctx, prog):
     ctx.ob('C13.R10', 'dispatch|restart', okr, 'the scanner is restarted (start()) after every decided key before the next byte is fed', where=f.loc(sw['i']))
 
 
+def r13(ctx, prog):
+    ctx.rule('C13.R13', 'A4 consume implies delivered (telnet front end): text bytes that onTcpReceived marks as read (buff.hasRead) have been handed to onRecvString — directly '
+             'in the text branch, or through a local accumulator that is delivered on every path from the accumulation to every exit of the function, the '
+             '"incomplete command, wait for more" early returns included', floor=1)
+    f = prog.fn1('tbox::terminal::Telnetd::Impl::onTcpReceived')
+    deliveries = [c for c in f.calls() if c.get('fn') == 'onRecvString']
+    consumed = [c for c in f.calls() if c.get('fn') == 'hasRead']
+    if not consumed:
+        raise AnalysisBroken('Telnetd::onTcpReceived: no buff.hasRead() call')
+    # locals holding a pointer into the buffer
+    bufp = set()
+    for st in f.stmts:
+        if st and st['k'] == 'DeclStmt':
+            for d in st['decls']:
+                if 'init' in d and any(f.stmts[x]['k'] in q.CALL_KINDS and f.stmts[x].get('fn') in ('readableBegin',) for x in f.walk(d['init'])):
+                    bufp.add(d['d'])
+    accs = []
+    for c in f.calls():
+        if (c.get('fn') in ('append', 'push_back', 'assign', 'insert') or c.get('op') in ('+=', '=')) and 'basic_string' in (c.get('cls') or '') and c.get('obj') is not None:
+            o = f.s(f.strip_casts(c['obj']))
+            if o and o['k'] == 'DeclRefExpr' and o.get('dk') == 'Var' and any(f.stmts[x]['k'] == 'DeclRefExpr' and f.stmts[x].get('d') in bufp for a in c.get('args', []) for x in f.walk(a)):
+                accs.append((c, o))
+    direct = [d for d in deliveries if any(f.stmts[x]['k'] == 'DeclRefExpr' and f.stmts[x].get('d') in bufp for a in d.get('args', []) for x in f.walk(a))]
+    ctx.ob('C13.R13', '%s|text-handed-over' % f.name, bool(direct) or bool(accs), 'text runs are delivered directly (%d site(s)) or accumulated (%d site(s))' % (len(direct), len(accs))
+           if (direct or accs) else 'no text of the buffer is handed to onRecvString although it is marked as read', where=f.loc(consumed[0]['i']))
+    for c, o in accs:
+        dl = [d for d in deliveries if any(f.stmts[x]['k'] == 'DeclRefExpr' and f.stmts[x].get('d') == o['d'] for a in d.get('args', []) for x in f.walk(a))]
+        # an edge on which the accumulator is tested empty carries nothing undelivered (and cannot be taken right after an append)
+        def not_empty_edge(b, k, o=o):
+            cond = f.cfg.blocks[b].cond
+            if cond is None:
+                return True
+            cs = f.s(f.strip_casts(cond))
+            neg = False
+            while cs is not None and cs['k'] == 'UnaryOperator' and cs.get('op') == '!':
+                neg = not neg
+                cs = f.s(f.strip_casts(cs['ch'][0]))
+            if cs is not None and cs['k'] in q.CALL_KINDS and cs.get('fn') == 'empty' and cs.get('obj') is not None and \
+                    (f.s(f.strip_casts(cs['obj'])) or {}).get('d') == o['d']:
+                empty_on_true = not neg
+                return (k == 0) != empty_on_true      # keep only the edge where it is not empty
+            return True
+        ok = bool(dl) and not f.cfg.exists_path(q.pt(f, c), 'exit', avoid=q.pts(f, dl), edge_filter=not_empty_edge)
+        leak = ''
+        if not ok:
+            for r in q.returns(f):
+                if f.cfg.exists_path(q.pt(f, c), q.pt_or_term(f, r), avoid=q.pts(f, dl), edge_filter=not_empty_edge):
+                    leak = f.loc(r['i'])
+                    break
+        ctx.ob('C13.R13', '%s|%s-delivered' % (f.name, o.get('n')), ok, 'the accumulated text is delivered on every path to every exit' if ok else
+               'text appended to %s at %s (and then marked read) is not delivered on the path that leaves at %s: an incomplete telnet command behind typed text makes '
+               'the text vanish — the executed line is no longer what was typed' % (o.get('n'), f.loc(c['i']), leak or 'the end of the function'), where=f.loc(c['i']))
+
+
+def r14(ctx, prog):
+    ctx.rule('C13.R14', 'A5 scanner typestate across strings: KeyEventScanner::stop() reports a key but (on its success branches) leaves the step it stopped in; the terminal '
+             'therefore either restarts the scanner before the first next() of every string, or follows every stop() by start() on all paths to the exit — otherwise the '
+             'first key of the next string is decoded from a stale state', floor=1)
+    f = prog.fn1('tbox::terminal::Terminal::Impl::onRecvString')
+    def sc(fn):
+        return [c for c in f.calls() if c.get('fn') == fn and c.get('obj') is not None and f.path(c['obj']).endswith('key_event_scanner_')]
+    starts, nexts, stops = sc('start'), sc('next'), sc('stop')
+    if not nexts:
+        raise AnalysisBroken('Terminal::onRecvString: no key_event_scanner_.next() call')
+    # does stop() keep state on a success branch?  (read from its body: a `return kEnsure` not preceded by a reset of step_)
+    stp = prog.fn1('tbox::terminal::KeyEventScanner::stop')
+    resets = [a for a, rhs in q.assigns(stp, 'KeyEventScanner::step_')]
+    keeps = any(stp.cfg.exists_path(stp.cfg.entry_point(), q.pt_or_term(stp, r), avoid=q.pts(stp, resets)) for r in q.returns(stp)
+                if 'kEnsure' in stp.path(r['val'] if r.get('val') is not None else -1))
+    fresh = bool(starts) and all(any(f.cfg.dominates(q.pt(f, s_), q.pt(f, n_)) for s_ in starts) for n_ in nexts)
+    after = bool(stops) and all(q.must_follow(f, q.pt(f, t), q.pts(f, starts)) for t in stops) if starts else not stops
+    ok = fresh or after or not keeps
+    ctx.ob('C13.R14', '%s|scanner-restart' % f.name, ok, ('the scanner is restarted before the first next() of every string' if fresh else
+           'every stop() is followed by start()' if after else 'stop() resets the step on every branch') if ok else
+           'the scanner is carried across strings (no start() before next()) and %s is not followed by start(): stop() returns kEnsure for a bare CR / ESC but keeps '
+           'step_, so the first byte of the next string is decoded as the continuation of a sequence that was already reported' %
+           ('stop() at %s' % f.loc(stops[0]['i']) if stops else 'the end of a string'), where=f.loc(nexts[0]['i']))
+
+
 def run(ctx):
     prog = extract('ALL' if ctx.tier == 'thorough' else scope_units())
     ctx.guard(r1, ctx, prog)
@@ -565,6 +644,9 @@ def run(ctx):
     ctx.guard(r7, ctx, prog)
     ctx.guard(r9, ctx, prog)
     ctx.guard(r10, ctx, prog)
+    ctx.guard(r13, ctx, prog)
+    ctx.guard(r14, ctx, prog)
+    ctx.guard(harden.run_threshold, ctx, prog, 'C13.R12', lambda g: g.file.startswith(MODULES + '/terminal/impl/service/'), 'terminal input scanner', 3)
     ctx.guard(harden.run_narrowing, ctx, prog, 'C13.R11', input_entries(prog),
               lambda g: g.file.startswith(MODULES + '/terminal/') or g.file.startswith(MODULES + '/util/'), 'terminal input path')
     ctx.guard(harden.run, ctx, prog, 'C13.R8', input_entries(prog),
